@@ -99,6 +99,19 @@ class SegmentAllocationTableAdapter(Adapter):
                     elif value_current == AKAI_SAT_FREE_FLAG or \
                             (value_current < size and dirty_flags[value_current]):
 
+                        if value_current != AKAI_SAT_FREE_FLAG \
+                                and not current_sector_is_directory:
+                            # The chain continues in sectors which were
+                            # already decoded (its head is not its lowest
+                            # sector): link the collected sectors to them.
+                            links.append(subpath_index)
+                            links.append(value_current)
+                            for link, next_link in zip(links, links[1:]):
+                                sector_links[link] = SectorLink(
+                                    next=next_link, 
+                                    end=False
+                                )
+
                         continue_flag = False
                         dirty_flags[subpath_index] = True
                         previous_sector_was_directory = False
